@@ -468,6 +468,49 @@ def join_case(bname, lname, jname, how):
     return Case(name, body, goals, family="join/" + how, params=dict(batch=bname, layout=lname, other=jname, how=how), **BIG)
 
 
+def masked_join_case(lname, jname, how):
+    """selection (possibly of ZERO rows) commutes with join / row concatenation: p[m].join(q[m]) == p.join(q)[m]"""
+    la, lb, batch = LAYOUTS[lname], JOIN_B[jname], BATCHES["n"]
+    name = "masked_join/%s+%s/%s" % (lname, jname, how)
+
+    def body(env):
+        ca, cb = mk_coords(env, "a", la, batch), mk_coords(env, "b", lb, batch)
+        separate(env, list(ca.values()) + list(cb.values()))
+        p, q = Points.from_coordinates(dict(ca)), Points.from_coordinates(dict(cb))
+        m = sym_mask(env, "m", batch)
+        bits = decide_bits(m)
+        if how == "join":
+            a, b = p[m].join(q[m]), p.join(q)[m]
+        elif how == "joined":
+            a, b = Points.joined(p[m], q[m]), Points.joined(p, q)[m]
+        elif how == "or":
+            p2 = Points.from_coordinates(dict(mk_coords(env, "c", la, batch)))
+            a, b = (p[m] | p2), None
+            return dict(a=dump(a), b=None, bits=bits, p2=dump(p2), pm=dump(p[m]))
+        else:
+            raise ValueError(how)
+        return dict(a=dump(a), b=dump(b), bits=bits)
+
+    def goals(o, L, env):
+        k = sum(1 for x in o["bits"] if x)
+        if how == "or":
+            # k selected rows of p followed by all rows of p2, in p's space (also when k == 0)
+            yield "space_names_dims_order", o["a"]["space"] == [[n, d] for n, d in la]
+            yield "row_count", o["a"]["shape"][0] == k + batch[0]
+            return
+        want_space = [[n, d] for n, d in la + lb]
+        yield "space_names_dims_order[select_then_join]", o["a"]["space"] == want_space
+        yield "space_names_dims_order[join_then_select]", o["b"]["space"] == want_space
+        yield "same_shape", o["a"]["shape"] == o["b"]["shape"]
+        yield "row_count", o["a"]["shape"][0] == k
+        if o["a"]["shape"] == o["b"]["shape"] and k:
+            fa = arr(o["a"]["t"], o["a"]["shape"]).reshape(-1)
+            fb = arr(o["b"]["t"], o["b"]["shape"]).reshape(-1)
+            yield "same_cells", L.And([L.eq(x, y) for x, y in zip(fa, fb)])
+
+    return Case(name, body, goals, family="masked_join/" + how, params=dict(layout=lname, other=jname, how=how), **BIG)
+
+
 def vcat_case(bname, lname, how):
     layout, batch = LAYOUTS[lname], BATCHES[bname]
     b2 = (2,) + tuple(batch[1:])
@@ -930,6 +973,9 @@ def cases(tier):
             for j in (JOIN_B if thorough else ["v2w1"]):
                 for how in hows:
                     cs.append(join_case(b, l, j, how))
+    for how in ("join", "joined", "or"):
+        for l in (lay_main if thorough else ["t1x2"]):
+            cs.append(masked_join_case(l, "v2w1", how))
     for b in BATCHES:
         for l in (lay_main if thorough else ["x2t1u1"]):
             for how in ("or", "or3", "or_empty_right", "or_empty_left", "permuted_space"):
